@@ -729,6 +729,19 @@ func runCaseB(t vh.TB, c *CaseB) vh.Outcome {
 	return o
 }
 
+// TestPropServerSlowBody: the slow-upload case of the server part on its own (it takes 12 s, so the general generator
+// draws it rarely): every run holds at least one.
+func TestPropServerSlowBody(t *testing.T) {
+	defer closeServers()
+	vh.Rapid(t, vh.Scale(1, 8), func(rt *rapid.T) {
+		c := CaseB{Pollers: rapid.IntRange(2, 4).Draw(rt, "spollers"), Clients: rapid.IntRange(1, 6).Draw(rt, "sclients"), GapsMs: []int{0, 5}, PollGap: []int{0, 1},
+			Procs: rapid.SampledFrom([]int{1, 4}).Draw(rt, "sprocs"), FetchPar: true, SlowBodyMs: rapid.SampledFrom([]int{11000, 12500}).Draw(rt, "slowMs")}
+		recB.Check(rt, &c, func() vh.Outcome {
+			return vh.Confirm(func(int) vh.Outcome { getServer(rt, c.Procs); return runCaseB(rt, &c) })
+		})
+	})
+}
+
 func TestPropServerPollers(t *testing.T) {
 	defer closeServers()
 	vh.Rapid(t, vh.Scale(150, 3000), func(rt *rapid.T) {
